@@ -6,6 +6,8 @@ import (
 	"context"
 	"encoding/binary"
 	"errors"
+	"runtime"
+	"strconv"
 	"strings"
 	"sync"
 
@@ -31,6 +33,7 @@ type vFaultStore struct {
 	trace  []string // "op key" for each intercepted operation (when tracing)
 	tracing bool
 	readFaults bool
+	onlyGoroutine uint64 // when non-zero: only operations issued by this goroutine are traced / faulted
 	onMark     func(mark string) // trace-only markers (never faulted): end of a WriteUpdateWithXattrs call
 
 	released []uint64 // sequences published as unused through AddRaw of _sync:unusedSeq(s) documents
@@ -38,7 +41,25 @@ type vFaultStore struct {
 
 var errVInjected = errors.New("verif: injected storage error")
 
+// vGoID returns the current goroutine's id (parsed from the stack header); used to restrict fault injection and
+// tracing to the goroutine that runs the request under test, so that feed / background goroutines using the same
+// decorated store neither consume fault targets nor appear in traces.
+func vGoID() uint64 {
+	var buf [64]byte
+	n := runtime.Stack(buf[:], false)
+	// "goroutine 123 [running]:..."
+	fields := strings.Fields(string(buf[:n]))
+	if len(fields) < 2 {
+		return 0
+	}
+	id, _ := strconv.ParseUint(fields[1], 10, 64)
+	return id
+}
+
 func (f *vFaultStore) note(op, key string) error {
+	if f.onlyGoroutine != 0 && vGoID() != f.onlyGoroutine {
+		return nil
+	}
 	f.mu.Lock()
 	if f.tracing {
 		f.trace = append(f.trace, op+" "+key)
